@@ -44,6 +44,14 @@ CHECKS.update({
              text="Bounded symbolic model checking: same index, probability and (up to exact ties) path at both log levels on every joint path, with symbolic cut-offs so that stopped candidates exist.",
              note="Sym.__format__ placeholder for log formatting; ties between equally probable alternatives are not distinguished (C10's caveat)."),
 })
+CHECKS.update({
+ 'C11': dict(tech="symbolic execution of real InMemMap.nodes_closeto/edges_closeto with the real planar kernels; full-scan membership/distance/projection/order oracle in the solver (z3 nlsat)", ref="5/C11",
+             text="Bounded symbolic checking of the in-memory spatial queries in the planar metric: nodes with all coordinates symbolic, edges on a library of concrete layouts (unit, long, diagonal, zero-length, tiny, ~1e7 metres) with symbolic query point and radius; one known finding (start-node box pre-filter) is listed in known_findings.json.",
+             note="Reals; rtree-indexed map, lat-lon metric and SqliteMap are outside this check's bounds (stated in evidence); absolute 1e-8 tolerances give a radius-proportional band."),
+ 'C20': dict(tech="symbolic execution of real interpolate_path (planar: real kernels; lat-lon: loop structure over symbolic stand-ins of the geodesic primitives), z3", ref="5/C20",
+             text="Bounded symbolic checking: for traces of 1-2(3) symbolic points and symbolic spacing, with 1..5 subdivisions per segment, first/last/originals kept in order, inserted points at k/dt on the connection, no gap above the spacing.",
+             note="Reals; more than 5 subdivisions per segment outside the bound; lat-lon primitives assumed correct here (C14)."),
+})
 NA = {
  'C15': "error bound between two transcendental computations (great-circle vs locally projected planar): needs a delta-complete procedure for sin/cos/atan2; z3 has none and cvc5 QF_NRAT timed out on the 3-variable core (DESIGN.md section 8)",
 }
